@@ -711,6 +711,17 @@ _DATACLASS = [
 _HAND_INIT = ('    def __init__(self, name_i, name_j, intervals, slopes, name=None):\n        self.name_i = name_i\n'
               '        self.name_j = name_j\n        self.intervals = intervals\n        self.slopes = slopes\n'
               '        self._set_intercepts()\n        self.name = name\n')
+_CACHED_PROP = [
+    (C_, 'import numpy as np\n', 'from functools import cached_property\n\nimport numpy as np\n'),
+    (C_, _LOOK, '        i = np.argmax(x < self._thresholds) - 1'),
+    (C_, "    def get_HoRT(self, x=0., T=c.T0('K')):", '    @cached_property\n    def _thresholds(self):\n'
+     "        return np.array(self.intervals)\n\n    def get_HoRT(self, x=0., T=c.T0('K')):")]
+_CTX_MGR = [
+    (C_, 'import numpy as np\n', 'from contextlib import contextmanager\n\nimport numpy as np\n'),
+    (C_, _TWO_INSERTS + '        self._set_intercepts()\n', '        with self._editing():\n'
+     '            self.intervals.insert(i, interval)\n            self.slopes.insert(i, slope)\n'),
+    (C_, '        self.intervals.pop(i)\n        self.slopes.pop(i)\n        self._set_intercepts()\n',
+     '        with self._editing():\n            self.intervals.pop(i)\n            self.slopes.pop(i)\n')]
 MUTANTS = [
     {'name': 'the first breakpoint can be removed', 'expect': ('REF.pop', 'pop'),
      'edits': [('pmutt/mixture/cov.py', "        if i == 0:\n            err_msg = 'First index cannot be removed'", "        if i is None:\n            err_msg = 'First index cannot be removed'")]},
@@ -825,6 +836,11 @@ MUTANTS = [
                 '            H = self.slopes[i - 1] * interval + intercepts[i - 1]\n'
                 '            intercepts[i] = H - self.slopes[i] * interval\n'
                 '        self._intercepts = intercepts.tolist()\n')]},
+    {'name': 'thresholds in a cached_property that no edit invalidates', 'expect': ('REF.lookup', 'get_UoRT'),
+     'edits': _CACHED_PROP},
+    {'name': 'context manager around the edits recomputes the intercepts on entry', 'expect': ('REF.', 'get_UoRT'),
+     'edits': _CTX_MGR + [(C_, '    def pop(self, i):', '    @contextmanager\n    def _editing(self):\n'
+                           '        self._set_intercepts()\n        yield\n\n    def pop(self, i):')]},
     {'name': 'constructor takes the slopes before the breakpoints', 'expect': ('', 'PiecewiseCovEffect'),
      'edits': [(C_, '    def __init__(self, name_i, name_j, intervals, slopes, name=None):',
                 '    def __init__(self, name_i, name_j, slopes, intervals, name=None):')]},
@@ -892,6 +908,12 @@ EQUIV = [
      'edits': [(C_, _TWO_INSERTS,
                 '        pieces = list(zip(self.intervals, self.slopes))\n        pieces.insert(i, (interval, slope))\n'
                 '        self.intervals, self.slopes = (list(column) for column in zip(*pieces))\n')]},
+    {'name': 'thresholds in a cached_property dropped from __dict__ by _set_intercepts',
+     'edits': _CACHED_PROP + [(C_, '        self._intercepts = []\n', '        self._intercepts = []\n'
+                               "        self.__dict__.pop('_thresholds', None)\n")]},
+    {'name': 'edits inside a context manager that recomputes the intercepts on exit',
+     'edits': _CTX_MGR + [(C_, '    def pop(self, i):', '    @contextmanager\n    def _editing(self):\n        yield\n'
+                           '        self._set_intercepts()\n\n    def pop(self, i):')]},
     {'name': 'default temperature resolved in the body',
      'edits': [(C_, "    def get_UoRT(self, x=0., T=c.T0('K')):", "    def get_UoRT(self, x=0., T=None):"),
                (C_, _LOOK, "        if T is None:\n            T = c.T0('K')\n" + _LOOK)]},
